@@ -55,7 +55,8 @@ type Facts struct {
 	Shard      map[string][][2]string `json:"shard_steps,omitempty"` // C17, see shard.go
 	CloseSites []CloseSite            `json:"closeSites"`
 	// Mgr: step fingerprints of the poller-pool functions (C18), see mgrOps
-	Mgr map[string][]string `json:"mgr,omitempty"`
+	Mgr         map[string][]string `json:"mgr,omitempty"`
+	ServerSteps map[string][]string `json:"server_steps,omitempty"` // C13, see server.go
 }
 
 // closeKind classifies a call expression; "" = not a descriptor-closing call.
@@ -241,6 +242,7 @@ func main() {
 	out := flag.String("out", "", "directory for generated Lean files")
 	factsPath := flag.String("facts", "", "facts.json path")
 	instrShard := flag.String("instr-shard", "", "write the instrumented copy of mux/shard_queue.go here (C17, shard.go)")
+	instrDir := flag.String("instr", "", "directory for instrumented copies of the server files (C13 harness overlay)")
 	flag.Parse()
 
 	cfg := &packages.Config{
@@ -368,6 +370,23 @@ func main() {
 	shard := analyseShard(pkgs)
 	facts.Shard = shard.Steps
 	defer shard.emit(*out, *instrShard)
+	// server / event-loop step lists (C13); must run after the fingerprints: -instr rewrites the AST
+	for _, p := range pkgs {
+		if p.Name == "netpoll" {
+			steps, err := serverFacts(p, *instrDir)
+			if err != nil {
+				fmt.Fprintln(os.Stderr, "server facts:", err)
+				os.Exit(2)
+			}
+			facts.ServerSteps = steps
+			if *out != "" {
+				if err := writeServerLean(*out, steps); err != nil {
+					fmt.Fprintln(os.Stderr, err)
+					os.Exit(2)
+				}
+			}
+		}
+	}
 	if *factsPath != "" {
 		j, _ := json.MarshalIndent(facts, "", " ")
 		if err := os.WriteFile(*factsPath, j, 0o644); err != nil {
